@@ -492,3 +492,19 @@ X.Interp.spec_sel = _spec_sel
 X.Interp.spec_elect = _spec_elect
 X.Interp.spec_recs_of = _spec_recs_of
 X.Interp.spec_has_recs = _spec_has_recs
+
+
+# -- an argument handed to the ensemble (X, y_true, y_pred, or what a column selector returns) may be None ----------------
+_orig_is = X.Interp.is_
+
+
+def _is_with_args(self, a, b):
+    a, b = self.force(a), self.force(b)
+    for x, y in ((a, b), (b, a)):
+        if isinstance(x, SOpaque) and x.sort == "Arg" and y is None:
+            det, ms, key, arg = sorts(self.ctx)
+            return x.t == z3.Const("arg_none", arg)
+    return _orig_is(self, a, b)
+
+
+X.Interp.is_ = _is_with_args
